@@ -23,10 +23,10 @@ def marker_proof():
                           ('used_flag_forgotten', r'cpd\.unc_off_used = true;', '', 'postcondition')])
 
 
-PROOFS = output_proofs.select(['add_text_ignored']) + tokenizer_proofs.select(['tok_layout', 'parse_off_newlines', 'parse_newline', 'parse_next_head']) + [outtext_proofs.iteration_proof(), end_proof.end_proof(), marker_proof()]
+PROOFS = output_proofs.select(['add_text_ignored']) + tokenizer_proofs.select(['tok_layout', 'parse_off_newlines', 'parse_newline', 'parse_next_head', 'tokenize_strip']) + [outtext_proofs.iteration_proof(), end_proof.end_proof(), marker_proof()]
 EXPLANATION = ('Kernel of C07: add_text(text, is_ignored=true) hands text[0..n) to write_char unchanged and in order and touches neither cpd.column, cpd.spaces nor '
                'cpd.last_char (frame); the blank-line path of parse_ignored (parse_off_newlines) consumes only blanks and terminators and reports their exact count.')
-K = ['K7 parse_comment (tail): a region begins exactly at a comment whose last marker is the disable marker, ends exactly at a comment holding the enable marker, and opening one is recorded in unc_off_used', 'K2 add_text(is_ignored): raw emission, frame excludes column logic', 'K5 parse_next (head): while cpd.unc_off is set parse_ignored is the first tokenizer tried, and when it takes the text no other tokenizer is consulted; outside a region it is not consulted',
+K = ['K8 tokenize() strip loop: the text of a CT_IGNORED chunk (disabled region) is never stripped', 'K7 parse_comment (tail): a region begins exactly at a comment whose last marker is the disable marker, ends exactly at a comment holding the enable marker, and opening one is recorded in unc_off_used', 'K2 add_text(is_ignored): raw emission, frame excludes column logic', 'K5 parse_next (head): while cpd.unc_off is set parse_ignored is the first tokenizer tried, and when it takes the text no other tokenizer is consulted; outside a region it is not consulted',
      'K6 uncrustify_end: cpd.unc_off is cleared after every file (a region left open does not disable processing of the next file)',
      'K1b parse_off_newlines: only blanks/terminators consumed, nl_count exact',
      'K3 output_text (one iteration of the chunk loop): a CT_IGNORED / CT_JUNK chunk is written by exactly one add_text(str, is_ignored=true) and nothing else (no output_to_column, no add_char, column/pending blanks/line state untouched)']
